@@ -121,28 +121,27 @@ theorem lin_processMessage_all (env : PEnv) (orc : EvalOracles) (expr : Expr) (e
         subst hgf
         have hfc' : f = ⟨content, content⟩ := by rw [hf] at h4; exact (Option.some.inj h4).symm
         subst hfc'
-        have ver : ∀ x, x ∈ [content, wholeRewrite env orc expr md.path n content] → WholeVersion env orc exprs c x := by
-          intro x hx
+        have ver : ∀ as x, x ∈ [content, wholeRewrite env orc expr md.path n content as] → WholeVersion env orc exprs c x := by
+          intro as x hx
           simp only [List.mem_cons, List.mem_nil_iff, or_false] at hx
           rcases hx with rfl | rfl
           · exact h5
-          · exact .step expr md.path n h5 hmem
-        have conv : ∀ w', LPM w0 l0 w1.nextFid (linAt w0 l0 w1).org ((linAt w0 l0 w1).org g)
-              [content, wholeRewrite env orc expr md.path n content] w' →
+          · exact .step expr md.path n as h5 hmem
+        have conv : ∀ w', LPMA env orc expr w0 l0 w1.nextFid (linAt w0 l0 w1).org ((linAt w0 l0 w1).org g) md.path n content w' →
             Hist w0 w' ∧ (files0.get dir nm = some c → w0.lookup dir nm = some fid0 →
               WholeSafeL env orc exprs w0 l0 c (l0.org fid0) w') := by
-          rintro w' ⟨hp', p', q', g', hg', ho'⟩
+          rintro w' ⟨as, hp', p', q', g', hg', ho'⟩
           refine ⟨hp'.hist, fun _ _ => ?_⟩
           obtain ⟨a1, a2, f', a3, a4, a5⟩ := hg'
-          exact ⟨p', q', g', f', a1, a2, by rw [ho', h3], a3, ver _ a4, ver _ a5⟩
+          exact ⟨p', q', g', f', a1, a2, by rw [ho', h3], a3, ver as _ a4, ver as _ a5⟩
         exact wp_mono (wp_inv_mono (lin_processMessage env orc expr md n st hH hd hp hfc hl hlt hf hnd) conv)
           (fun _ w' h => conv w' h)
       · -- another message: its entry, its file and the origin of its file are untouched
-        have conv : ∀ w', (WholePMI w1 (md.path, n) [content, wholeRewrite env orc expr md.path n content] w' ∧
+        have conv : ∀ w', (WholePMIA env orc expr w1 md.path n content w' ∧
               LinPre w0 l0 w1.nextFid (linAt w0 l0 w1).org w') →
             Hist w0 w' ∧ (files0.get dir nm = some c → w0.lookup dir nm = some fid0 →
               WholeSafeL env orc exprs w0 l0 c (l0.org fid0) w') := by
-          rintro w' ⟨⟨k, -⟩, hp'⟩
+          rintro w' ⟨⟨as, k, -⟩, hp'⟩
           refine ⟨hp'.hist, fun _ _ => ?_⟩
           exact ⟨p, q, g, f, k.look (p, q) g hpq h1, Nat.lt_of_lt_of_le h2 k.nextFid, by rw [hp'.old g h2, h3],
             (k.files g h2).trans h4, h5, h6⟩
@@ -221,9 +220,9 @@ theorem lin_walk (env : PEnv) (orc : EvalOracles) (expr : Expr) (exprs : List Ex
               obtain ⟨dir', nm', c', hc', hv⟩ := hinv1.track dir nm c hc
               obtain ⟨dir'', nm'', c'', hc'', hcase⟩ := hrel dir' nm' c' hc'
               refine ⟨dir'', nm'', c'', hc'', ?_⟩
-              rcases hcase with rfl | rfl
+              rcases hcase with rfl | ⟨as, rfl⟩
               · exact hv
-              · exact .step expr dir' nm' hv hmem
+              · exact .step expr dir' nm' as hv hmem
             · intro d' hd'
               have hp1 := hmd1.1 d' hd'
               exact k.dirPath hp1 (World.lt_of_dirPath hp1)
